@@ -55,6 +55,8 @@ def main():
     pycommon.k0_texts(chk, o, seeds.literal_product(), "literal evaluation product k=0", wall=150 if chk.quick else 600, vac=("SyntaxError",))
     from symx import errseeds
     ac = errseeds.after_constructs()
+    ep = seeds.expr_product()
+    pycommon.k0_texts(chk, o, ep if not chk.quick else seeds.sample(chk.rng, ep, 1500), "expression kinds x positions k=0", wall=150 if chk.quick else 900, vac=("SyntaxError",))
     pycommon.k0_texts(chk, o, errseeds.spanning_errors(), "errors whose range spans a multi-line construct k=0", wall=120 if chk.quick else 600, vac=("SyntaxError",))
     pycommon.k0_texts(chk, o, ac if not chk.quick else seeds.sample(chk.rng, ac, 700), "multi-line construct x filler x error line k=0", wall=150 if chk.quick else 900,
                       vac=("SyntaxError",))
